@@ -114,7 +114,7 @@ CLAIMS = {
  'C19': ("Theorems in Purr/Props/C19.lean: depth_le_nesting — for EVERY string the number of simultaneously live read_smiles activations (= length of the reader transducer's stack on the repaired tree) is at most "
          "parenthesis nesting + 1, independent of length; depth_flat — any input without parentheses (chains, dot lists with or without rings, ring digit lists) is read at depth 1 whatever its size; one level of branches at depth 2. "
          "Proof by induction over the transducer with shape lemmas (every token consumed is parenthesis-free). PARTIAL BY NATURE: a theorem bounds activations, not bytes; the tie is the purr_verif hook's activation counter compared "
-         "EXACTLY with the model depth on every generated string, plus soak runs of read->build->walk->write on 2*10^5 (thorough 10^6) atom families in a child process with the default and a 2 MiB stack. walk, Writer and Builder are loops "
+         "with the model depth on every generated string (a count ABOVE the model's is a disagreement; the theorem bounds the model's count, so a count below it keeps the property and is only reported in evidence), plus soak runs of read->build->walk->write on 2*10^5 (thorough 10^6) atom families in a child process with the default and a 2 MiB stack. walk, Writer and Builder are loops "
          "over explicit Vecs (reviewed fact about the code, exercised by the soak).",
          "Lean 4 proof bounding recursion depth by nesting for all inputs + exact differential comparison with an activation-counter hook + child-process soak at 10^6 atoms", "4.19"),
  'C14': ("Determinism: the model is a pure function (stated), and no model result depends on map iteration order — pool lookup is invariant under permutation of the entries given the key-uniqueness invariant (pool_find_perm). The hash seed itself "
